@@ -1,6 +1,7 @@
 package loader
 
 import (
+	"fmt"
 	"math"
 	"strconv"
 	"strings"
@@ -11,6 +12,10 @@ func parseTime(format, dateTime string, tzLoc *time.Location, formatFixupState i
 	tz := time.UTC
 	if tzLoc != nil {
 		tz = tzLoc
+	}
+	if formatFixupState < 0 || formatFixupState > len(dateTime) {
+		return time.Time{}, fmt.Errorf("time field %q is shorter than the %d extra characters expected after the time",
+			dateTime, formatFixupState)
 	}
 	dateString := dateTime[:len(dateTime)-formatFixupState]
 	if format == "timestamp" {
